@@ -382,6 +382,13 @@ _REC_BOUNDS = ("both hash choices x recovery info present / absent (message of s
 OBLIGATIONS.append(M("C12", "c12_recover_glue", {"q": "recover_glue", "name": "recover_glue_c12"}, _REC_FUNCS, _REC_BOUNDS, cost=1))
 OBLIGATIONS.append(M("C06", "c06_recover_glue", {"q": "recover_glue"}, _REC_FUNCS, _REC_BOUNDS, cost=1))
 
+EXPLANATION["C02"] += (" c02_script_classes_*: Script::from_bytes and then the real Script::to_bytes on EVERY sequence of at most 3 (thorough 4) elements over 13 element classes (incl. non-minimal OP_PUSHDATA forms, stray / doubled / "
+                       "unclosed conditional opcodes, a non-opcode byte) plus every cut inside a final OP_PUSHDATA element, against an independent tokenizer's accept / reject / either verdict.")
+EXPLANATION["C06"] += (" c06_recover_glue: Signature::get_public_key / get_public_key_from_digest with the recovery primitive and the SEC1 encoder uninterpreted (which signature, recovery id and digest reach the primitive; the key comes back "
+                       "compressed iff the signature's key-compression marker says so).")
+EXPLANATION["C12"] += (" c12_recover_glue: the recovery step BSM verification relies on, as C06 c06_recover_glue.")
+EXPLANATION["C07"] += (" c07_pubkey_derivation: PrivateKey::get_point / PublicKey::from_private_key_impl encode this key's public point in the form the key's compression flag states (scalar multiplication and SEC1 encoder uninterpreted).")
+
 # ---------------------------------------------------------------- C17 (token level)
 EXPLANATION["C17"] = ("Partial: TOKEN LEVEL only. Text is modelled as a list of tokens separated by single spaces: opcode names and decimal literals are concrete strings (names are the OpCodes variant "
                       "identifiers read from the source, as strum renders and parses them), hex::encode of a byte string is 'the lower-case hex of these bytes', hex::decode inverts it, and a comparison of such a "
